@@ -1,1 +1,3 @@
 import WsProofs.Props.C20
+import WsProofs.Props.C19
+import WsProofs.Props.C18
